@@ -305,17 +305,32 @@ func (ci *cinst) list(in []ast.Stmt) []ast.Stmt {
 			continue
 		case *ast.SelectStmt:
 			out = append(out, call("vsched", "Point", strLit(fmt.Sprintf("%s:%d select", ci.rel, line))))
+			for _, c := range x.Body.List {
+				// a communication that succeeded may be what another thread is waiting for (channel as semaphore)
+				if cc := c.(*ast.CommClause); cc.Comm != nil {
+					sig := call("vsched", "Signal")
+					ci.gen[sig] = true
+					cc.Body = append([]ast.Stmt{sig}, cc.Body...)
+				}
+			}
 			out = append(out, ci.selectStmt(x))
 			continue
 		case *ast.ExprStmt:
 			if u, ok := x.X.(*ast.UnaryExpr); ok && u.Op == token.ARROW {
-				sel := &ast.SelectStmt{Select: x.Pos(), Body: &ast.BlockStmt{List: []ast.Stmt{&ast.CommClause{Comm: x}}}}
-				out = append(out, call("vsched", "Point", strLit(fmt.Sprintf("%s:%d recv", ci.rel, line))))
-				out = append(out, ci.selectStmt(sel))
+				// <-ch  ->  vsched.Recv(ch)
+				x.X = &ast.CallExpr{Fun: &ast.SelectorExpr{X: ast.NewIdent("vsched"), Sel: ast.NewIdent("Recv")}, Args: []ast.Expr{u.X}}
+				out = append(out, st)
 				continue
 			}
+			if c, ok := x.X.(*ast.CallExpr); ok {
+				if id, ok := c.Fun.(*ast.Ident); ok && id.Name == "close" && len(c.Args) == 1 {
+					c.Fun = &ast.SelectorExpr{X: ast.NewIdent("vsched"), Sel: ast.NewIdent("Close")}
+				}
+			}
 		case *ast.SendStmt:
-			ci.fail(x.Pos(), "send statement outside select: not supported")
+			// ch <- v  ->  vsched.Send(ch, v)
+			out = append(out, &ast.ExprStmt{X: &ast.CallExpr{Fun: &ast.SelectorExpr{X: ast.NewIdent("vsched"), Sel: ast.NewIdent("Send")}, Args: []ast.Expr{x.Chan, x.Value}}})
+			continue
 		case *ast.LabeledStmt:
 			if s, ok := x.Stmt.(*ast.SelectStmt); ok && !hasDefault(s) {
 				ci.fail(x.Pos(), "labelled blocking select: not supported")
@@ -332,6 +347,15 @@ func (ci *cinst) list(in []ast.Stmt) []ast.Stmt {
 				x.X = &ast.CallExpr{Fun: &ast.SelectorExpr{X: ast.NewIdent("vsched"), Sel: ast.NewIdent("Keys")}, Args: []ast.Expr{x.X}}
 			}
 		case *ast.AssignStmt:
+			if len(x.Rhs) == 1 {
+				if u, ok := x.Rhs[0].(*ast.UnaryExpr); ok && u.Op == token.ARROW {
+					fn := "Recv"
+					if len(x.Lhs) == 2 {
+						fn = "Recv2"
+					}
+					x.Rhs[0] = &ast.CallExpr{Fun: &ast.SelectorExpr{X: ast.NewIdent("vsched"), Sel: ast.NewIdent(fn)}, Args: []ast.Expr{u.X}}
+				}
+			}
 			out = append(out, st)
 			for _, l := range x.Lhs {
 				if ix, ok := l.(*ast.IndexExpr); ok {
@@ -403,6 +427,20 @@ func (ci *cinst) selectStmt(s *ast.SelectStmt) ast.Stmt {
 			})
 		}
 	}
+	// if every case ends in a terminating statement the original select was itself terminating (a function may end
+	// with it); keep that property by looping without any exit other than the cases' own returns
+	allTerm := true
+	for _, c := range s.Body.List {
+		b := c.(*ast.CommClause).Body
+		if len(b) == 0 || !terminating(b[len(b)-1]) {
+			allTerm = false
+		}
+	}
+	if allTerm {
+		ci.gen[s] = true
+		s.Body.List = append(s.Body.List, &ast.CommClause{Body: []ast.Stmt{call("vsched", "WaitExternal")}})
+		return &ast.ForStmt{Body: &ast.BlockStmt{List: []ast.Stmt{s}}}
+	}
 	ci.n++
 	d := ast.NewIdent(fmt.Sprintf("_vd%d", ci.n))
 	set := func(v string) ast.Stmt {
@@ -415,6 +453,28 @@ func (ci *cinst) selectStmt(s *ast.SelectStmt) ast.Stmt {
 		Cond: &ast.UnaryExpr{Op: token.NOT, X: d},
 		Body: &ast.BlockStmt{List: []ast.Stmt{set("true"), s}},
 	}
+}
+
+// terminating: a conservative version of the specification's "terminating statement" (return, goto, panic call, and
+// blocks / if-else chains ending in those).
+func terminating(st ast.Stmt) bool {
+	switch x := st.(type) {
+	case *ast.ReturnStmt:
+		return true
+	case *ast.BranchStmt:
+		return x.Tok == token.GOTO
+	case *ast.ExprStmt:
+		if c, ok := x.X.(*ast.CallExpr); ok {
+			if id, ok := c.Fun.(*ast.Ident); ok && id.Name == "panic" {
+				return true
+			}
+		}
+	case *ast.BlockStmt:
+		return len(x.List) > 0 && terminating(x.List[len(x.List)-1])
+	case *ast.IfStmt:
+		return x.Else != nil && terminating(x.Body) && terminating(x.Else)
+	}
+	return false
 }
 
 // verify refuses whatever blocking or spawning construct is left after the rewrite.
